@@ -350,6 +350,10 @@ class Walker:
                 ch = attr_chain(s.target)
                 if ch:
                     p.env[ch] = new
+            elif isinstance(s.target, ast.Subscript) and self.track_stores and isinstance(s.target.value, ast.Name) and s.target.value.id in p.env:
+                # x[idx] op= v  ==>  x := __store__(x, idx, x[idx] op v)
+                old_v = p.env[s.target.value.id]
+                p.env[s.target.value.id] = ast.Call(func=ast.Name(id="__store__", ctx=ast.Load()), args=[old_v, subst(s.target.slice, p.env), new], keywords=[])
             return [(p, FALL)]
         if isinstance(s, ast.Expr):
             v = subst(s.value, p.env)
